@@ -175,6 +175,16 @@ Definition discipline_report (p : program) (eps : list fname) : list (fname * op
 Definition discipline_ok (p : program) (eps : list fname) : bool :=
   negb (match eps with [] => true | _ => false end) && forallb (entry_ok p) eps.
 
+(* start-up code (samlidp.New and what it calls) runs before the server is
+   shared: its accesses need no guard, but its lock operations must still be
+   balanced, ordered and non-re-entrant — a Lock taken in a loop body has to be
+   released in the same iteration, or the second iteration blocks on itself.
+   The check is the discipline on the program with the accesses removed. *)
+Definition is_access (a : act) : bool := match a with Rd _ | Wr _ => true | _ => false end.
+Definition strip_program (p : program) : program :=
+  map (fun fb : fname * list act => (fst fb, filter (fun a => negb (is_access a)) (snd fb))) p.
+Definition startup_ok (p : program) (starts : list fname) : bool := discipline_ok (strip_program p) starts.
+
 (* ---------- operational semantics ---------- *)
 (* sync.RWMutex with writer preference: a writer that called Lock and found
    the mutex busy is *waiting*; from then on RLock blocks, although readers
